@@ -321,9 +321,9 @@ example : (styLines []
 /-! ## 4. JSON -/
 
 def sevOfString (s : Name) : Option Sev :=
-  if s = "error".toList then some .error
-  else if s = "warning".toList then some .warning
-  else if s = "ignored".toList then some .ignored
+  if s = errorStr then some .error
+  else if s = warningStr then some .warning
+  else if s = ignoredStr then some .ignored
   else none
 
 theorem sevOfString_sevString (s : Sev) : sevOfString (sevString s) = some s := by
@@ -370,8 +370,8 @@ ignored problem, and for a live one `"error"` exactly when its check is in the `
 theorem json_severity_spec (all fail : List Name) (si nc : Bool) (ps : List Problem) (o : JObj)
     (h : o ∈ renderJson (shownProblems (shouldExit all fail) si nc ps)) :
     ∃ p ∈ ps, o.code = p.cat ∧ o.location = p.pos ∧ o.message = p.msg ∧
-      (o.severity = "ignored".toList ↔ p.ignored = true) ∧
-      (o.severity = "error".toList ↔ p.ignored = false ∧
+      (o.severity = ignoredStr ↔ p.ignored = true) ∧
+      (o.severity = errorStr ↔ p.ignored = false ∧
           (lower p.cat = staticcheckTok ∨ lower p.cat = compileTok ∨ lower p.cat = configTok ∨
             lastMatch (all.map lower) (fail.map lower) (lower p.cat) = some true)) := by
   simp only [renderJson, List.mem_map] at h
@@ -379,13 +379,16 @@ theorem json_severity_spec (all fail : List Name) (si nc : Bool) (ps : List Prob
   have hs := (severity_spec all fail si nc ps p s).mp hx
   obtain ⟨hp, _, hcases⟩ := hs
   refine ⟨p, hp, rfl, rfl, rfl, ?_, ?_⟩
-  · rcases hcases with ⟨rfl, i, _⟩ | ⟨rfl, i, _⟩ | ⟨rfl, i, _⟩
+  · have n1 : errorStr ≠ ignoredStr := by decide
+    have n2 : warningStr ≠ ignoredStr := by decide
+    rcases hcases with ⟨rfl, i, _⟩ | ⟨rfl, i, _⟩ | ⟨rfl, i, _⟩
     · simp [sevString, i]
-    · simp only [sevString, i]; decide
-    · simp only [sevString, i]; decide
-  · have ne2 : "warning".toList ≠ "error".toList := by decide
+    · simp [sevString, i, n1]
+    · simp [sevString, i, n2]
+  · have ne2 : warningStr ≠ errorStr := by decide
+    have n3 : ignoredStr ≠ errorStr := by decide
     rcases hcases with ⟨rfl, i, _⟩ | ⟨rfl, i, e⟩ | ⟨rfl, i, e⟩
-    · simp [sevString, i]
+    · simp [sevString, i, n3]
     · simp only [sevString, i, true_and]; exact ⟨fun _ => e, fun _ => trivial⟩
     · simp only [sevString, i, true_and]
       constructor
@@ -446,10 +449,12 @@ theorem sarif_extract (short : Name → Name) (checks : List Name) (xs : List (P
   simp only [sarifProblems, renderSarif, List.map_map]
   apply List.map_congr_left
   intro x _
-  simp only [Function.comp, sarifCore, sarifMsg_result, SarifItem.mk.injEq]
-  refine ⟨rfl, rfl, rfl, trivial, ?_, ?_⟩
-  · simp [sarifResult, sarifRelated_core]
-  · cases hx : x.2 <;> simp [sarifResult, hx, inSource]
+  simp only [Function.comp]
+  rw [sarifMsg_result]
+  have hs : ((sarifResult short x).suppressions == [inSource]) = (x.2 == Sev.ignored) := by
+    cases hx : x.2 <;> simp [sarifResult, hx]
+  rw [hs]
+  simp [sarifCore, sarifResult, sarifRelated_core]
 
 example : sarifProblems (renderSarif id []
     [(⟨"SA4009".toList, true, ⟨"p.go".toList, 3, 8⟩, ⟨"p.go".toList, 3, 9⟩, "m".toList,
@@ -703,5 +708,135 @@ example : renderedCommon id (output id ["S1".toList, "S2".toList] ["S1".toList] 
   = renderedCommon id (output id ["S1".toList, "S2".toList] ["S1".toList] false false .sarif
     [⟨"S1".toList, false, ⟨"a.go".toList, 1, 2⟩, ⟨[], 0, 0⟩, "m".toList, [], []⟩,
      ⟨"S2".toList, true, ⟨"a.go".toList, 3, 4⟩, ⟨[], 0, 0⟩, "n".toList, [], []⟩]).1 := by decide
+
+/-! ## 7. The stylish summary line and the exit status -/
+
+/-- a compile error hidden by `-debug.no-compile-errors`. -/
+def hiddenP (noCompile : Bool) (p : Problem) : Bool := decide (p.cat = compileTok) && noCompile
+
+theorem shownProblems_cons (se : AMap) (si nc : Bool) (p : Problem) (rest : List Problem) :
+    shownProblems se si nc (p :: rest)
+      = (match classify se si nc p with
+          | some s => [(p, s)]
+          | none => []) ++ shownProblems se si nc rest := by
+  unfold shownProblems
+  simp only [List.filterMap_cons]
+  cases classify se si nc p <;> simp
+
+theorem count_problems (se : AMap) (si nc : Bool) (ps : List Problem) (c : Counts) :
+    ((ps.map Problem.diag).foldl (countStep se si nc) c).numErrors
+        = c.numErrors + ((shownProblems se si nc ps).filter (fun x => x.2 == Sev.error)).length ∧
+    ((ps.map Problem.diag).foldl (countStep se si nc) c).numWarnings
+        = c.numWarnings + ((shownProblems se si nc ps).filter (fun x => x.2 == Sev.warning)).length ∧
+    ((ps.map Problem.diag).foldl (countStep se si nc) c).numIgnored
+        = c.numIgnored + (ps.filter (fun p => p.ignored && !hiddenP nc p)).length := by
+  induction ps generalizing c with
+  | nil => simp [shownProblems]
+  | cons p rest ih =>
+    simp only [List.map_cons, List.foldl_cons]
+    obtain ⟨h1, h2, h3⟩ := ih (countStep se si nc c p.diag)
+    rw [h1, h2, h3, shownProblems_cons]
+    simp only [List.filter_append, List.length_append, List.filter_cons]
+    unfold countStep classify hiddenP Problem.diag
+    by_cases a : p.cat = compileTok <;> by_cases b : nc = true <;> by_cases i : p.ignored = true <;>
+      by_cases s : si = true <;> by_cases e : se.get (lower p.cat) = true <;>
+      simp_all <;> omega
+
+/-- **stylish_stats_spec.** The summary line of `-f stylish`: `total` is the number of all
+problems; `errors` and `warnings` are the numbers of rows shown with that severity;
+`ignored` is the number of ignored problems (hidden compile errors aside) whether or not
+they are shown — and equals the number of rows with severity `ignored` under
+`-show-ignored`; the four kinds partition the problems. -/
+theorem stylish_stats_spec (all fail : List Name) (si nc : Bool) (ps : List Problem) :
+    (stats all fail si nc ps).total = ps.length ∧
+    (stats all fail si nc ps).errors
+      = ((shownProblems (shouldExit all fail) si nc ps).filter (fun x => x.2 == Sev.error)).length ∧
+    (stats all fail si nc ps).warnings
+      = ((shownProblems (shouldExit all fail) si nc ps).filter (fun x => x.2 == Sev.warning)).length ∧
+    (stats all fail si nc ps).ignored = (ps.filter (fun p => p.ignored && !hiddenP nc p)).length ∧
+    (si = true → (stats all fail si nc ps).ignored
+      = ((shownProblems (shouldExit all fail) si nc ps).filter (fun x => x.2 == Sev.ignored)).length) ∧
+    (stats all fail si nc ps).errors + (stats all fail si nc ps).warnings + (stats all fail si nc ps).ignored
+      + (ps.filter (hiddenP nc)).length = (stats all fail si nc ps).total := by
+  obtain ⟨h1, h2, h3⟩ := count_problems (shouldExit all fail) si nc ps {}
+  simp only [Nat.zero_add] at h1 h2 h3
+  refine ⟨rfl, h1, h2, h3, ?_, ?_⟩
+  · intro hs
+    subst hs
+    simp only [stats, count, h3]
+    clear h1 h2 h3
+    induction ps with
+    | nil => simp [shownProblems]
+    | cons p rest ih =>
+      rw [shownProblems_cons]
+      simp only [List.filter_append, List.length_append, List.filter_cons, ← ih]
+      unfold classify hiddenP
+      by_cases a : p.cat = compileTok <;> by_cases b : nc = true <;> by_cases i : p.ignored = true <;>
+        by_cases e : (shouldExit all fail).get (lower p.cat) = true <;> simp_all <;> omega
+  · simp only [stats, count, h1, h2, h3]
+    clear h1 h2 h3
+    induction ps with
+    | nil => simp [shownProblems]
+    | cons p rest ih =>
+      rw [shownProblems_cons]
+      simp only [List.filter_append, List.length_append, List.filter_cons, List.length_cons, ← ih]
+      unfold classify hiddenP
+      by_cases a : p.cat = compileTok <;> by_cases b : nc = true <;> by_cases i : p.ignored = true <;>
+        by_cases s : si = true <;> by_cases e : (shouldExit all fail).get (lower p.cat) = true <;>
+        simp_all <;> omega
+
+example : stats ["S1".toList, "S2".toList] ["S1".toList] true true
+    [⟨"S1".toList, false, ⟨[], 0, 0⟩, ⟨[], 0, 0⟩, [], [], []⟩, ⟨"S2".toList, false, ⟨[], 0, 0⟩, ⟨[], 0, 0⟩, [], [], []⟩,
+     ⟨"S2".toList, true, ⟨[], 0, 0⟩, ⟨[], 0, 0⟩, [], [], []⟩, ⟨"compile".toList, false, ⟨[], 0, 0⟩, ⟨[], 0, 0⟩, [], [], []⟩]
+    = ⟨4, 1, 1, 1⟩ := by decide
+
+/-- **exit_from_counts.** The exit status of a lint run is 1 exactly when the format is not
+SARIF and the `errors` count (the one the stylish summary prints) is positive; together
+with `stylish_stats_spec` and `severity_spec`: exactly when some problem is shown with
+severity `error`. -/
+theorem exit_from_counts (short : Name → Name) (all fail : List Name) (si nc : Bool) (f : Format)
+    (ps : List Problem) :
+    ((output short all fail si nc f ps).2 = 1 ↔ f ≠ .sarif ∧ 0 < (stats all fail si nc ps).errors) ∧
+    ((output short all fail si nc f ps).2 = 0 ∨ (output short all fail si nc f ps).2 = 1) := by
+  have he : (output short all fail si nc f ps).2
+      = (printDiagnostics all fail si nc f (ps.map Problem.diag)).2 := by
+    cases f <;> rfl
+  rw [he]
+  refine ⟨?_, exit_zero_or_one all fail si nc f _⟩
+  simp only [printDiagnostics, exitStatus, stats]
+  by_cases hp : 0 < (count all fail si nc (ps.map Problem.diag)).numErrors
+  · by_cases hf : f = .sarif <;> simp [hp, hf]
+  · simp [hp]
+
+example : (output id ["S1".toList] ["all".toList] true false .text
+    [⟨"S1".toList, true, ⟨"a.go".toList, 1, 2⟩, ⟨[], 0, 0⟩, "m".toList, [], []⟩]).2 = 0
+  ∧ (output id ["S1".toList] ["all".toList] true false .text
+    [⟨"S1".toList, false, ⟨"a.go".toList, 1, 2⟩, ⟨[], 0, 0⟩, "m".toList, [], []⟩]).2 = 1
+  ∧ (output id ["S1".toList] ["all".toList] true false .sarif
+    [⟨"S1".toList, false, ⟨"a.go".toList, 1, 2⟩, ⟨[], 0, 0⟩, "m".toList, [], []⟩]).2 = 0 := by decide
+
+/-- **exit_code_spec.** Exit code 2 is reserved for an unusable `-f` value: a lint run exits 2
+iff the format is unsupported (`-f binary` exits 0), `-merge` exits 2 iff the format is
+unsupported or `binary`; a lint run exits 1 iff the format is one of the five known ones and
+printDiagnostics returns 1 (see `exit_spec`); nothing else occurs. -/
+theorem exit_code_spec (fmt : Name) (all fail : List Name) (si nc : Bool) (ps : List Problem) :
+    (lintExit fmt all fail si nc ps = 2 ↔ formatArg fmt = .unsupported) ∧
+    (mergeExit fmt all fail si nc ps = 2 ↔ formatArg fmt = .unsupported ∨ formatArg fmt = .binary) ∧
+    (lintExit fmt all fail si nc ps = 1 ↔
+      ∃ f, formatArg fmt = .known f ∧ (printDiagnostics all fail si nc f (ps.map Problem.diag)).2 = 1) ∧
+    (lintExit fmt all fail si nc ps = 0 ∨ lintExit fmt all fail si nc ps = 1 ∨ lintExit fmt all fail si nc ps = 2) := by
+  unfold lintExit mergeExit
+  cases h : formatArg fmt with
+  | known f =>
+    rcases exit_zero_or_one all fail si nc f (ps.map Problem.diag) with h0 | h1
+    · simp [h0]
+    · simp [h1]
+  | binary => simp
+  | unsupported => simp
+
+example : lintExit "xml".toList [] [] false false [] = 2 ∧ lintExit "binary".toList [] [] false false [] = 0
+    ∧ mergeExit "binary".toList [] [] false false [] = 2 ∧ lintExit "Text".toList [] [] false false [] = 2
+    ∧ lintExit "text".toList ["S1".toList] ["all".toList] false false
+        [⟨"S1".toList, false, ⟨[], 0, 0⟩, ⟨[], 0, 0⟩, [], [], []⟩] = 1 := by decide
 
 end Verif.C11
